@@ -731,6 +731,50 @@ func (e *enc) specCall(env *specEnv, n *SCall) (tval, error) {
 			return tval{fmt.Sprintf("(Card_%s (dom_%s %s))", as[0].sort, as[0].sort, as[0].t), intTy, "Int"}, nil
 		}
 		return tval{}, fmt.Errorf("len of sort %s", as[0].sort)
+	case "Ranged":
+		// Ranged(k): the slice that loop k ranges over (a value computed before the loop)
+		if len(n.Args) != 1 || env.fr == nil {
+			return tval{}, fmt.Errorf("Ranged takes the ordinal of a range loop")
+		}
+		lit, ok := n.Args[0].(*SInt)
+		if !ok {
+			return tval{}, fmt.Errorf("Ranged takes a literal loop ordinal")
+		}
+		for h, k := range env.fr.loopOrd {
+			if fmt.Sprint(k) != lit.V {
+				continue
+			}
+			var idx *ssa.Phi
+			for _, in := range h.Instrs {
+				if phi, ok := in.(*ssa.Phi); ok && phi.Comment == "rangeindex" {
+					idx = phi
+				}
+			}
+			if idx == nil {
+				break
+			}
+			for b := range env.fr.loopBlocks(h) {
+				for _, in := range b.Instrs {
+					var x, ix ssa.Value
+					switch a := in.(type) {
+					case *ssa.IndexAddr:
+						x, ix = a.X, a.Index
+					case *ssa.Index:
+						x, ix = a.X, a.Index
+					default:
+						continue
+					}
+					if inc, ok := ix.(*ssa.BinOp); ok && inc.X == ssa.Value(idx) {
+						if _, isSlice := x.Type().Underlying().(*types.Slice); isSlice {
+							if _, defined := env.fr.val[x]; defined {
+								return e.mkT(e.value(x), x.Type()), nil
+							}
+						}
+					}
+				}
+			}
+		}
+		return tval{}, fmt.Errorf("Ranged(%s): no range loop over a slice with that ordinal whose slice is known here", lit.V)
 	case "Extends":
 		// Extends(new, old, n): new has n more elements than old and agrees with old on old's indices
 		as, err := args()
